@@ -40,6 +40,17 @@ def run(ctx):
     appenders = find_appenders(ctx)
     d2_data_owners(ctx, committer, appenders)         # D3 owners
     d3_commit_follows(ctx, committer, appenders)
+    # a failed append leaves file length == descriptor length: recovery handler (shared with C09)
+    from .C09 import recover
+    c = ctx.repo.cls('Array')
+    f = c.methods['iterappend']
+    arr_app = [a for a in appenders if a.cls is c]
+    for n, cal in ctx.E.callees(f):
+        if cal in arr_app and isinstance(n, ast.Call):
+            recover(ctx, f, c, n, f'appender call {norm(n.func)}', committer, arr_app)
+    for e in ctx.E.primitives(f):
+        if e.kind == 'WRITE-PATH':
+            recover(ctx, f, c, e.node, f'{e.kind} {norm(e.node)[:40]}', committer, arr_app)
     d5_cache(ctx, ctx.repo.cls('Array'), committer)   # D4
     d4_rewrite_keeps_keys(ctx)
     from ._shared import opener_branch_agreement
@@ -215,7 +226,7 @@ def d3_commit_follows(ctx, committer, appenders):
                        f'{f.qualname}: the length commit (descriptor + handle) follows `{norm(s)[:40]}` on every normal path',
                        detail='the data file changes length but a path reaches the normal exit without rewriting the '
                               'descriptor: file length != prod(shape) x itemsize')
-    ctx.floor('C02 length-changing sites outside the appender', n, 6)
+    ctx.floor('C02 length-changing sites outside the appender', n, 4)
     f = ctx.repo.func('array.asarray')
     wr = [node for node, cal in ctx.E.callees(f) if cal.qualname == 'DataDir._write_jsondict']
     for e in ctx.E.primitives(f):
